@@ -9,6 +9,7 @@ from harness.extract import acl as x_acl
 from harness.extract import filter as x_filter
 from harness.extract import filter_soft as x_soft
 from harness.extract import filter_power as x_power
+from harness.extract import filter_senders as x_senders
 from harness.lib.core import TRUSTED_BASE, VERIF, Ctx, lean_lock, run_driver, shrink_ops
 from harness.rigs import filter as rig
 from harness.rigs import net as netrig
@@ -64,7 +65,10 @@ MANIFEST = {
             "C06_not_on_inert / C06_transitional_inert: at every moment of any history at which a device of ANY kind is OFF, SHUTTING_DOWN "
             "or BOOTING a frame on any port changes nothing, is not forwarded and not handed to software; C06_shutdown_window / "
             "C06_boot_window / C06_reset_window: for every positive duration the device IS not-ON in the step of the accepted request and "
-            "after each tick of the countdown (d, u, d+u+1 ticks). "
+            "after each tick of the countdown (d, u, d+u+1 ticks); C06_power_hook_silent: what the hooks / enable() try to send while every "
+            "interface is down is dropped; C06_gen_wireless: a wireless router's access point receives as a RouterInterface, the airspace "
+            "delivers to the other enabled interfaces of the sender's frequency only; C06_gen_senders: every sending call site of every "
+            "application / service is one of five sanctioned kinds ending in the session manager, none reaches outside the node. "
             "Ties: Gen/Filter.lean, Gen/FilterSoft.lean regenerated from router.py, firewall.py, switch.py, host_node.py, base.py, "
             "session_manager.py, arp.py, protocols/arp.py (order of guards and calls, list per entry point, branch shapes, port "
             "dispatch, power guards, own-source stamping, send_frame call sites, cross-node reaches, enable sites, ARPPacket "
@@ -74,7 +78,10 @@ MANIFEST = {
             "certificates asked on the real post-block network and on the unblocked one, the host/switch/ARP models validated on "
             "every transmitted frame; round 7: an ENUMERATED transitional family - every device kind on the path x shutdown countdown / "
             "boot countdown / reset window x positive durations, A acting in the step of the request and at every tick of the window, the "
-            "device's operating state at each of A's operations checked against the window theorems).",
+            "device's operating state at each of A's operations checked against the window theorems AND (operating state, interface flags) "
+            "after every request / tick / re-enable attempt compared with the Lean interpreter of the translated power programs through "
+            "drv_c06; a WIRELESS family: two WirelessRouters over the airspace, blocks by rule list, power, disabled access point, other "
+            "frequency, removed cable, with the airspace rendered as a wire for all four certificates).",
     "note": "Partial: the reachability theorem concludes about protected HOSTS only (other devices of the zone do change) and asks "
             "of attacker-side nodes that they do not forge a protected source address or an ARP payload (proved for hosts and "
             "switches); a firewall second-stage block reached FROM THE DMZ is covered only when both candidate second lists deny (the "
@@ -190,6 +197,8 @@ def run(ctx: Ctx):
         ctx.extract("FilterSoft", x_soft.emit)
         # Node.power_on / power_off / reset / apply_timestep / the two hooks, translated statement by statement (C06_gen_power_programs)
         ctx.extract("FilterPower", x_power.emit)
+        # inventory of every emitter call site of the software layer (C06_gen_senders: all go through the session manager)
+        ctx.extract("FilterSenders", x_senders.emit)
         # Props/C06 builds on C07's verdict theorems, whose Gen tables must be current as well
         ctx.extract("Acl", x_acl.emit)
         ctx.extract("AclMatch", x_acl.emit_match)
